@@ -26,6 +26,10 @@ func chunks(v int64) []int {
 }
 
 // algoCfg is the configuration record of a limit-algorithm scenario (contract LimitTrace).
+// forceTol, when positive, replaces the randomly drawn RTT tolerance of the next Gradient limits built (the twin
+// experiments cycle through integral and fractional tolerances instead of leaving them to the draw)
+var forceTol float64
+
 type algoCfg struct {
 	Algo     string `json:"algo"`
 	Wrap     string `json:"wrap"` // none | traced | windowed
@@ -98,14 +102,21 @@ func newAlgoSUT(r *rng, algo, wrap string) *algoSUT {
 			c.Initial = c.Ceil + r.between(1, 150)
 		}
 		s.smoothing = smooths[r.intn(len(smooths))]
-		interval := []int{limit.ProbeDisabled, 5, 20, 100}[r.intn(4)]
+		interval := []int{limit.ProbeDisabled, 5, 20, 100, 100}[r.intn(5)]
 		if interval > 0 {
 			c.ProbeMax = 2 * interval
 		}
-		tol := []float64{1, 1.5, 2}[r.intn(3)]
+		tol := []float64{1, 1.5, 2, 2.5}[r.intn(4)]
+		if forceTol > 0 {
+			tol = forceTol
+		}
 		qf := functions.FixedQueueSizeFunc(c.Queue)
 		if r.chance(1, 2) {
 			// the default-style allowance max(queue, sqrt(limit)): at least c.Queue, and its floor is still max(minimum, queue)
+			// (with room above it: a maximum of 200 or 1000)
+			if c.Ceil < 200 {
+				c.Ceil = 200
+			}
 			qf = functions.SqrtRootFunction(c.Queue)
 			if sq := int(math.Sqrt(float64(c.Initial))); c.Initial < sq {
 				c.Initial = sq
@@ -525,6 +536,7 @@ func TestLimitTwin(t *testing.T) {
 	n := envInt("VERIF_N", 60)
 	w := newNdWriter(t, filepath.Join(outDir(t), "twin_trace.ndjson"))
 	defer w.close()
+	defer func() { forceTol = 0 }()
 	algos := []string{"vegas", "gradient", "gradient2"}
 	type smp struct {
 		rtt      int64
@@ -534,6 +546,7 @@ func TestLimitTwin(t *testing.T) {
 	}
 	for k := 0; k < n; k++ {
 		algo := algos[k%3]
+		forceTol = []float64{1.5, 2, 2.5, 1}[(k/3)%4]
 		mk := func() *algoSUT { return newAlgoSUT(newRng(seed(), uint64(k)), algo, "none") }
 		ref := mk()
 		r := newRng(seed()+7, uint64(k))
@@ -631,7 +644,8 @@ func TestLimitTwin(t *testing.T) {
 		}
 		cands := []int64{b, b + 1, b + b/8, b + b/4, b + b/2, 2 * b, 3 * b, 4 * b, 8 * b, 20 * b}
 		w.write(J{"ev": "Reset", "trace": k, "cfg": ref.cfg, "obs": J{"est": ref.cfg.Initial, "listeners": 0}})
-		last := smp{0, []int{est, est / 2, est + 5, 0}[r.intn(4)], r.chance(1, 6), 0}
+		// mostly saturated and drop free: an app-limited or dropped final sample gives the same estimate whatever its RTT
+		last := smp{0, []int{est, est, est + 5, est + 1, est / 2, 0}[r.intn(6)], r.chance(1, 10), 0}
 		if quiet {
 			last.inflight, last.drop = est, false
 		}
